@@ -380,15 +380,43 @@ fn eval_length_sweep(case: &Case, acc: &mut Acc, t: &Tab, ls: &[usize]) {
 
 #[allow(clippy::too_many_arguments)]
 fn eval_encrypt_at(case: &Case, acc: &mut Acc, t: &Tab, e: usize, s: usize, r: usize, form: u64, len: usize, p: u64) {
+    eval_encrypt_msg(case, acc, t, e, s, r, form, &msg(p, len), PATTERN_NAMES[p as usize]);
+}
+
+/// Messages whose AES-CBC body (under the keys of sender 3 / recipient 1, as in the length sweep) begins with a byte
+/// 0x02/0x03 followed by the x-coordinate of a curve point, i.e. a ciphertext WITHOUT embedded key whose bytes 4..37 look
+/// exactly like an embedded compressed public key. Found by counter search with the reference AES (about 1 in 256).
+fn body_looks_like_key_messages(t: &Tab, want: usize) -> Vec<Vec<u8>> {
+    let k = &t.shared[3][1];
+    let mut out = vec![];
+    let mut c: u64 = 0;
+    while out.len() < want && c < 200_000 {
+        for len in [48usize, 61, 100] {
+            let mut m = vec![0x20u8; len];
+            m[..8].copy_from_slice(&c.to_le_bytes());
+            let body = ra::cbc_encrypt(&k.ke, &k.iv, &m);
+            if (body[0] == 2 || body[0] == 3) && secp::decode_point(&body[..33]).is_some() {
+                out.push(m);
+                break;
+            }
+        }
+        c += 1;
+    }
+    out
+}
+
+#[allow(clippy::too_many_arguments)]
+fn eval_encrypt_msg(case: &Case, acc: &mut Acc, t: &Tab, e: usize, s: usize, r: usize, form: u64, message: &[u8], pname: &str) {
+    let message = message.to_vec();
+    let len = message.len();
     let s_c = form & 1 == 0;
     let r_c = form & 2 == 0;
-    let message = msg(p, len);
     let has_pub = e != 1;
-    let input = json!({"entry": ENTRIES[e], "sender_secret": hex::encode(t.secrets[s]), "recipient_secret": hex::encode(t.secrets[r]), "sender_key_compressed": s_c, "recipient_key_compressed": r_c, "msg_len": len, "msg_pattern": PATTERN_NAMES[p as usize], "msg": hx(&message)});
+    let input = json!({"entry": ENTRIES[e], "sender_secret": hex::encode(t.secrets[s]), "recipient_secret": hex::encode(t.secrets[r]), "sender_key_compressed": s_c, "recipient_key_compressed": r_c, "msg_len": len, "msg_pattern": pname, "msg": hx(&message)});
     acc.evaluations += 1;
     acc.nontrivial_structural += 1;
     if case.idx % 1777 == 0 {
-        acc.sample(case.idx, || json!({"space": "encrypt", "entry": ENTRIES[e], "sender": KEY_NAMES[s], "recipient": KEY_NAMES[r], "sender_key_compressed": s_c, "recipient_key_compressed": r_c, "msg_len": len, "msg_pattern": PATTERN_NAMES[p as usize]}));
+        acc.sample(case.idx, || json!({"space": "encrypt", "entry": ENTRIES[e], "sender": KEY_NAMES[s], "recipient": KEY_NAMES[r], "sender_key_compressed": s_c, "recipient_key_compressed": r_c, "msg_len": len, "msg_pattern": pname}));
     }
     let (sk_s, pk_r) = match (t.lib_priv(s, s_c), t.lib_pub(r, r_c)) {
         (Ok(a), Ok(b)) => (a, b),
@@ -864,6 +892,16 @@ pub fn spaces(tier: Tier) -> Vec<Space> {
         let mut sweep: Vec<usize> = (0..=if tier.is_thorough() { 2100 } else { 600 }).collect();
         sweep.extend_from_slice(&[4097, 16385, 65537, 70000, (1 << 20) + 4097]);
         v.push(Space::new("length-sweep", 4 * 2 * sweep.len() as u64, move |case, acc| eval_length_sweep(case, acc, &t, &sweep)));
+    }
+    {
+        // ciphertexts without embedded key whose body imitates an embedded key (content that looks like the library's framing)
+        let t = t.clone();
+        let msgs = Arc::new(body_looks_like_key_messages(&t, if tier.is_thorough() { 24 } else { 6 }));
+        let nm = msgs.len() as u64;
+        v.push(Space::new("body-looks-like-embedded-key", 4 * 2 * nm, move |case, acc| {
+            let c = coords(case.idx, &[4, 2, nm]);
+            eval_encrypt_msg(case, acc, &t, c[0] as usize, 3, 1, if c[1] == 0 { 0 } else { 3 }, &msgs[c[2] as usize], "body-imitates-embedded-key");
+        }));
     }
     let bs = Arc::new(bases(tier));
     let mut flips = vec![];
